@@ -14,6 +14,34 @@ BASE_OFF = ("cd /repo && /venv/bin/python -m pytest -ra -q -p no:cacheprovider -
 
 # id -> (level category, technique, level text, level note, design ref)
 CHECKS = {
+    'C09': ('exploration',
+            'gate-read checker over traces (READ_INPUT of a curated gate with the affirmative answer => verdict not solved) with directed flips',
+            'spec/gates.py curates ~70 gate inputs per year from the input descriptions. On every traced solve, a consultation of a gate with the affirmative answer '
+            '(a READ_INPUT by a line, or a read of an input form\'s echo line by another form) must not coexist with a solved verdict. Each gate is flipped in up to 3 (quick) / 10 '
+            '(thorough) base scenarios that solve and read it; limit-type gates (foreign tax above the Form 1116 ceiling, more than 14 payers with Schedule B required, HSA contribution '
+            'above the limit) are directed cases; thorough adds random multi-gate flips. Evidence lists gates never read and gates flipped but never reached.',
+            'The curated list is the trusted base; a gate not read imposes nothing; aborts count as not solved.',
+            'DESIGN.md section 4, C09'),
+    'C10': ('exploration',
+            'forced execution of every line definition with recording accessors resolving each key against the year\'s catalogue, arm coverage measured by sys.monitoring BRANCH events; exception-class monitor on real solves',
+            'The property is static; this family answers it by executing every line definition of every form instance of every year 60 (quick) / 400 (thorough) times with typed values drawn '
+            'to flip conditions, resolving every input/line/form/threshold/enum reference against the catalogue, and reporting measured arm coverage (about 95 %); unreached arms are listed as '
+            'not observed. Real solves (personas; every form requested next to Form 1040 with all its optional lines) are monitored for RecursionError, solver assertions, AttributeError, KeyError, NameError and unresolved inputs.',
+            'A reference is only observed when its arm executes; deliberately absent forms: 1040_s2, 1099-oid.',
+            'DESIGN.md section 4, C10'),
+    'C15': ('exploration',
+            'invariant monitor on the typed solution of every solved explored return (balance equations, curated non-negative lines, ratio range)',
+            'For every solved persona return: federal overpayment minus owed equals payments minus tax, not both positive, refund plus applied equals overpayment; the NC analogue on both '
+            'branches; every line on the curated non-negative list is >= 0; Form 8606 line 10 in [0,1]. Floors require both refund and owed branches in every year.',
+            'Personas supply non-negative amounts; the non-negative list is curated in hv/monitors/c15.py.',
+            'DESIGN.md section 4, C15'),
+    'C16': ('exploration',
+            'metamorphic monitor over pairs of real solves (copy renumbering, wage / deduction / withholding increments)',
+            'For solved bases: every permutation (quick: two) of the instance numbers of W-2/1099/1098 copies must change nothing but the renamed sections and the order of Schedule B listing rows; '
+            'wage increments (1, 50, 1000, 25000) must not lower line 24; increments of each deductible input must not raise it; increments of withholding must move line 34 - line 37 by exactly that amount. '
+            'Only pairs in which both returns solve are compared.',
+            'Monotonicity only for the relations the property names; 1-cent tolerance.',
+            'DESIGN.md section 4, C16'),
     'C11': ('exploration',
             'runtime contract monitor on InputStore reads with harness-side ground truth and an independent acceptance model (icontract postconditions on Input.value)',
             'Every read of an input made by the workload is judged against the presence and raw text the harness reads directly from the ConfigParser: '
